@@ -117,6 +117,16 @@ def _code(rng) -> str:
     return "".join(rng.choice("0123456789-abcXYZ") for _ in range(rng.randrange(1, 24)))
 
 
+def _hap_code(rng) -> str:
+    """a setup code in the HAP format XXX-XX-XXX (a driver can only be STARTED with such a code: its setup message
+    renders the code as a number)"""
+    return "%03d-%02d-%03d" % (rng.randrange(1000), rng.randrange(100), rng.randrange(1000))
+
+
+def _is_hap_code(c: str) -> bool:
+    return len(c) == 10 and c[3] == "-" and c[6] == "-" and c.replace("-", "").isdigit()
+
+
 def random_case(rng) -> Dict[str, Any]:
     salt = bytes(rng.randrange(256) for _ in range(16))
     r = rng.random()
@@ -184,6 +194,8 @@ def context_cases(ctx: Ctx) -> List[Dict[str, Any]]:
         c = random_case(rng)
         c["kind"] = "context"
         c.update(kw)
+        if any(k in LIFECYCLE for ks in c.get("between", {}).values() for k in ks) and not _is_hap_code(c["code"]):
+            c["code"] = _hap_code(rng)
         return c
 
     def pre(kind, conn):
@@ -224,6 +236,8 @@ def context_cases(ctx: Ctx) -> List[Dict[str, Any]]:
             c["between"] = {pos: [rng.choice(BYSTANDERS) for _ in range(rng.randrange(0, 3))]
                             for pos in ("pre", "M1-M3", "M3-M5")}
         if rng.random() < 0.35:   # the driver object has been started (and possibly stopped and started again)
+            if not _is_hap_code(c["code"]):
+                c["code"] = _hap_code(rng)
             c.setdefault("between", {})
             c["between"]["pre"] = ["start"] + ["stop", "start"] * rng.choice([0, 1, 1, 2]) + c["between"].get("pre", [])
             if rng.random() < 0.3:
@@ -322,6 +336,10 @@ def oracle_numeric(ctx: Ctx, case: Dict[str, Any], got: Dict[str, Any], cl: ref.
 # --------------------------------------------------------------------------- real code: exchange
 
 
+class _Lifecycle(Exception):
+    pass
+
+
 def run_exchange(case: Dict[str, Any]):
     """M1..M6 of the reference controller against the real handler.  Returns (script, verdicts)."""
     from cryptography.hazmat.primitives.asymmetric import ed25519
@@ -356,7 +374,10 @@ def run_exchange(case: Dict[str, Any]):
             nonlocal conn
             for k in between.get(pos, []):
                 if k in LIFECYCLE:
-                    sc.lifecycle(k)
+                    try:
+                        sc.lifecycle(k)
+                    except Exception as ex:  # noqa: BLE001  (the application cannot even start / stop its driver)
+                        raise _Lifecycle(f"AccessoryDriver.async_{k} raised {type(ex).__name__}: {ex}") from ex
                     if k == "start" and pos != "pre":
                         conn += 10   # a restart closes every connection: the controller continues on a new one
                 else:
@@ -415,6 +436,9 @@ def run_exchange(case: Dict[str, Any]):
             v["why"] = "pairing_changed not set on M6"
             return sc, v
         v["ok"] = True
+        return sc, v
+    except _Lifecycle as ex:
+        v["why"] = str(ex)
         return sc, v
     finally:
         env.close()
